@@ -393,13 +393,14 @@ def t2_jacobi(ctx, use_threading=True):
 def t3_shared_cache(ctx):
     from gemseo.caches.memory_full_cache import MemoryFullCache
     from gemseo.core.parallel_execution.disc_parallel_execution import DiscParallelExecution
+    from gemseo.core.parallel_execution.disc_parallel_linearization import DiscParallelLinearization
 
     t = ctx.tape
     n = t.randint(2, 5, "n_clones")
     n_workers = t.randint(2, 4, "n_workers")
     shared_mem = t.flag(0.3, "is_memory_shared")
     preempt = t.weighted([1, 2, 2], "preempt")
-    rounds = t.randint(1, 2, "rounds")
+    rounds = t.randint(1, 3, "rounds")
     n_values = t.randint(1, 3, "n_distinct_inputs")
     tol = 0.0
     durations = [t.choice(3, f"dur[{i}]") for i in range(n)]
@@ -412,49 +413,77 @@ def t3_shared_cache(ctx):
 
     sizes = {"a": 2, "y": 2}
     discs = [HDisc(f"D{i}", ["a"], ["y"], sizes, salt=0, hook=hook) for i in range(n)]
+    for d in discs:
+        d.add_differentiated_inputs()
+        d.add_differentiated_outputs()
     cfg = {"workload": "T3-shared-cache/thread", "n_clones": n, "n_workers": n_workers, "shared_memory": bool(shared_mem),
            "preempt": preempt, "rounds": rounds, "durations": durations}
     sig = cfg["workload"]
     submitted = set()
+    kinds = []
     with engine(ctx, "thread", clock, with_locks=True, preempt_mean=(0, 30, 6)[preempt], trace_files=TRACE_FILES) as eng:
         state["eng"] = eng
         cache = MemoryFullCache(is_memory_shared=shared_mem, tolerance=tol)
         for d in discs:
             d.cache = cache
-        par = DiscParallelExecution(discs, n_processes=n_workers, use_threading=True)
+        par_exec = DiscParallelExecution(discs, n_processes=n_workers, use_threading=True)
+        par_lin = DiscParallelLinearization(discs, n_processes=n_workers, use_threading=True)
         for r in range(rounds):
+            # a round of executions, or of linearisations (outputs and Jacobians then go to the
+            # shared cache from different threads)
+            lin = t.flag(0.5, f"linearize[{r}]")
+            kinds.append("lin" if lin else "exec")
             xs = [float(t.choice(n_values, f"x[{r}][{i}]")) for i in range(n)]
             inputs = [{"a": array([x, 1.0 - x])} for x in xs]
             submitted.update(xs)
             try:
-                outs = par.execute(inputs)
+                outs = (par_lin if lin else par_exec).execute(inputs)
             except Deadlock as d:
                 ctx.violate("C13.liveness", sig + " deadlock", str(d))
-            ctx.event("round", r, tuple(xs), canon([None if o is None else o["y"] for o in outs]))
-            for x, inp, o in zip(xs, inputs, outs):
-                exp = discs[0].f(inp)["y"]
-                if o is None or not _eq_data(o["y"], exp):
-                    ctx.violate("C13.shared_cache_output", sig, f"round {r}: x={x} y={None if o is None else o['y']} expected {exp}; cfg={cfg}")
+            if lin:
+                ctx.event("round", r, "lin", tuple(xs), canon([None if o is None else _dense(o["y"]["a"]) for o in outs]))
+                for x, inp, o in zip(xs, inputs, outs):
+                    exp = discs[0].df(inp)["y"]["a"]
+                    if o is None or not array_equal(_dense(o["y"]["a"]), exp):
+                        ctx.violate("C13.shared_cache_output", sig + " jacobian", f"round {r}: x={x} dy/da={None if o is None else _dense(o['y']['a'])} expected {exp}; cfg={cfg} rounds={kinds}")
+                for x, inp, d in zip(xs, inputs, discs):
+                    if not _eq_data(d.io.data["y"], discs[0].f(inp)["y"]):
+                        ctx.violate("C13.shared_cache_output", sig, f"round {r}: after linearisation {d.name}.y={d.io.data['y']} for x={x}; cfg={cfg} rounds={kinds}")
+            else:
+                ctx.event("round", r, "exec", tuple(xs), canon([None if o is None else o["y"] for o in outs]))
+                for x, inp, o in zip(xs, inputs, outs):
+                    exp = discs[0].f(inp)["y"]
+                    if o is None or not _eq_data(o["y"], exp):
+                        ctx.violate("C13.shared_cache_output", sig, f"round {r}: x={x} y={None if o is None else o['y']} expected {exp}; cfg={cfg} rounds={kinds}")
         if eng.s.n_preempt:
             ctx.fire("line_preemption", eng.s.n_preempt)
         entries = list(cache.get_all_entries())
     seen = []
     for e in entries:
         if not e.inputs or "a" not in e.inputs:
-            ctx.violate("C13.shared_cache_wellformed", sig, f"cache entry without inputs: {e}; cfg={cfg}")
+            ctx.violate("C13.shared_cache_wellformed", sig, f"cache entry without inputs: {e}; cfg={cfg} rounds={kinds}")
         xa = array(e.inputs["a"])
         seen.append(float(xa[0]))
         exp = discs[0].f({"a": xa})["y"]
         if not e.outputs or "y" not in e.outputs or not _eq_data(e.outputs["y"], exp):
-            ctx.violate("C13.shared_cache_wellformed", sig, f"cache entry for a={xa} holds outputs {e.outputs}, expected y={exp}; cfg={cfg}")
+            ctx.violate("C13.shared_cache_wellformed", sig, f"cache entry for a={xa} holds outputs {e.outputs}, expected y={exp}; cfg={cfg} rounds={kinds}")
+        if e.jacobian:
+            expj = discs[0].df({"a": xa})["y"]["a"]
+            try:
+                gotj = _dense(e.jacobian["y"]["a"])
+            except (KeyError, TypeError):
+                gotj = None
+            if gotj is None or not array_equal(gotj, expj):
+                ctx.violate("C13.shared_cache_wellformed", sig + " jacobian", f"cache entry for a={xa} holds the Jacobian {e.jacobian}, expected dy/da={expj}; cfg={cfg} rounds={kinds}")
+            ctx.probe("shared_cache_entry_with_jacobian")
     if sorted(seen) != sorted(submitted):
-        ctx.violate("C13.shared_cache_wellformed", sig, f"cache holds entries for {sorted(seen)} but distinct submitted inputs are {sorted(submitted)}; cfg={cfg}")
+        ctx.violate("C13.shared_cache_wellformed", sig, f"cache holds entries for {sorted(seen)} but distinct submitted inputs are {sorted(submitted)}; cfg={cfg} rounds={kinds}")
     total_runs = sum(d.n_run for d in discs)
     if total_runs > len(submitted):
         ctx.probe("same_input_computed_twice_concurrently")
     ctx.event("cache", tuple(sorted(seen)), total_runs)
-    ctx.case((sig, n, n_workers, bool(shared_mem), preempt, ctx.digest()), nontrivial=True)
-    ctx.sample = {"cfg": cfg, "entries": sorted(seen), "body_runs": total_runs}
+    ctx.case((sig, n, n_workers, bool(shared_mem), preempt, tuple(kinds), ctx.digest()), nontrivial=True)
+    ctx.sample = {"cfg": cfg, "rounds": kinds, "entries": sorted(seen), "body_runs": total_runs}
 
 
 # ------------------------------------------------------------------------------------
